@@ -304,6 +304,19 @@ func extractC14() *lean {
 		})
 	}
 	l.def("writeBackSkipsGone", "Bool", map[bool]string{true: "true", false: "false"}[wbSkips], wbSkips)
+	// Save: "only schedule new events" - writeEvent only under errors.Is(err, stoabs.ErrKeyNotFound) of a read of the key
+	saveGuarded, saveWrites := 0, 0
+	if fd := funcDecl(nf, "Save"); fd != nil {
+		saveWrites = c14CallsIn(fd, "p.writeEvent")
+		ast.Inspect(fd, func(n ast.Node) bool {
+			if is, ok := n.(*ast.IfStmt); ok && c14Expr(is.Cond) == "errors.Is(err, stoabs.ErrKeyNotFound)" {
+				saveGuarded += c14CallsIn(is.Body, "p.writeEvent")
+			}
+			return true
+		})
+	}
+	l.def("saveWritesWhenKeyAbsent", "Nat", fmt.Sprint(saveGuarded), saveGuarded)
+	l.def("saveWritesOtherwise", "Nat", fmt.Sprint(saveWrites-saveGuarded), saveWrites-saveGuarded)
 	var runConds []string
 	runNotifyInLoop := 0
 	if fd := funcDecl(nf, "Run"); fd != nil {
